@@ -1,5 +1,6 @@
 import NdnModel.Framing
 import NdnModel.StreamReader
+import NdnModel.FaceTasks
 import NdnModel.ReceiveBytes
 import NdnModel.Sha256
 import NdnGen.C06
@@ -23,7 +24,13 @@ import NdnGen.C06
         eff ::= N<id>:<reason> | S<id> | I<name>:<tok>
       when every pkt carries its bytes the answer continues with ` # ` and the same trace computed by the
       byte-level pipeline `Ndn.RecvBytes.receiveBytes` (decoder models of C07, SHA-256 of NdnModel/Sha256.lean)
-      from the bytes alone, ignoring the given decoder outcomes -/
+      from the bytes alone, ignoring the given decoder outcomes
+    `C06 tasks <ev> <ev> …`          the task layer (NdnModel/FaceTasks.lean) over the history
+        ev ::= f:<hex> (feed) | c:<hex> (bytes and EOF in one pass; `c:-` = EOF) | x:reset | x:other | sd (shutdown)
+             | t (turn) | s1 (head task only) | r:<k> (receive step of task k raises)
+        → `ok <p>/<q>,… ; <processed pkts> ; <queued pkts> ; <status> ; <running 0|1> ; <errors k,k,…|.> ; <cleanup n|.>`
+        p/q after each event = packets whose receive step was entered / tasks still queued; cleanup = number of
+        packets received when `_clean_up` ran (the black box here counts calls) -/
 namespace Ndn.Drv.C06
 open Ndn Ndn.Recv Ndn.Framing
 
@@ -147,8 +154,38 @@ def chunked (spec : String) : String :=
       ++ " ; " ++ showStatus last.1.status
   | _, _ => "bad-op"
 
+def parseEv (s : String) : Option FaceTasks.Ev :=
+  if s == "sd" then some .shutdown
+  else if s == "t" then some .turn
+  else if s == "s1" then some .step1
+  else if s == "x:reset" then some (.exc .connectionReset)
+  else if s == "x:other" then some (.exc .other)
+  else if s.startsWith "f:" then (fromHex (s.drop 2).toString).map .feed
+  else if s.startsWith "c:" then (fromHex (s.drop 2).toString).map .close
+  else if s.startsWith "r:" then (s.drop 2).toString.toNat?.map .raise
+  else none
+
+/-- the black box of the driver: counts the receive calls; `_clean_up` notes how many there had been -/
+def taskHooks : FaceTasks.Hooks (Nat × List Nat) :=
+  { recv := fun a _ => ((a.1 + 1, a.2), false), fail := fun a _ => (a.1 + 1, a.2), cleanup := fun a => (a.1, a.2 ++ [a.1]) }
+
+def tasks (toks : List String) : String :=
+  match toks.mapM parseEv with
+  | none => "bad-op"
+  | some evs =>
+    let caught := Gen.C06.streamCaught
+    let st0 := FaceTasks.init caught ((0, []) : Nat × List Nat)
+    let tr := FaceTasks.traceFrom caught taskHooks st0 evs
+    let fin := FaceTasks.runFrom caught taskHooks st0 evs
+    "ok " ++ (if tr.isEmpty then "." else ",".intercalate (tr.map fun s => toString s.processed.length ++ "/" ++ toString s.queue.length))
+      ++ " ; " ++ showPkts fin.processed ++ " ; " ++ showPkts fin.queue ++ " ; " ++ showStatus fin.face.status
+      ++ " ; " ++ (if fin.running then "1" else "0")
+      ++ " ; " ++ (if fin.errors.isEmpty then "." else ",".intercalate (fin.errors.map toString))
+      ++ " ; " ++ (match fin.app.2 with | [] => "." | n :: _ => toString n)
+
 def handle (args : List String) : String :=
   match args with
+  | "tasks" :: toks => tasks toks
   | ["chunks", spec] => chunked spec
   | ["frames", h] =>
     match fromHex h with
